@@ -145,6 +145,7 @@ PROPS = {
     ),
     'C10': dict(
         v=[('u_hdr_core', ['Multiboot2Header::load', 'Multiboot2BasicHeader::calc_checksum', 'Multiboot2BasicHeader::verify_checksum',
+                           'Multiboot2BasicHeader::set_size',
                            'Multiboot2BasicHeader::length', 'Multiboot2BasicHeader::header_magic', 'Multiboot2BasicHeader::checksum',
                            'Multiboot2BasicHeader::payload_len', 'DynSizedStructure::ref_from_ptr', 'DynSizedStructure::ref_from_slice',
                            'DynSizedStructure::ref_from_bytes', 'BytesRef::try_from', 'Header::total_size'])],
@@ -166,6 +167,7 @@ PROPS = {
     ),
     'C12': dict(
         v=[('u_hdr_builder', ['hb::Builder::build', 'hb::Builder::new', 'hb::Builder::*_tag', 'EndHeaderTag::new', 'Multiboot2BasicHeader::new',
+                              'Multiboot2BasicHeader::set_size',
                               'HeaderTagHeader::new', 'Multiboot2BasicHeader::calc_checksum', 'lemma_spec_checksum', 'seqfold::lemma_*',
                               'MaybeDynSized::as_bytes', 'BytesRef::vbytes', 'lemma_hdr_layouts'])],
         k_quick=[], k_thorough=[],
